@@ -15,6 +15,7 @@ mod shared;
 mod common;
 mod c01;
 mod c02;
+mod civ;
 mod tzcorpus;
 mod tzd;
 mod tzread;
@@ -45,10 +46,21 @@ fn main() {
         }
     }
     common::silence_panics();
-    match driver.as_str() {
+    let r = std::panic::catch_unwind(std::panic::AssertUnwindSafe(|| dispatch(&driver, &a)));
+    if r.is_err() {
+        eprintln!("harness panic: {}", common::LAST_PANIC.lock().map(|g| g.clone()).unwrap_or_default());
+        std::process::exit(3);
+    }
+}
+
+fn dispatch(driver: &str, a: &Args) {
+    let a = a.clone();
+    match driver {
         "c01" => c01::run(&a),
         "c02" => c02::run(&a),
         "c03" => tzd::run_c03(&a),
+        "c08" => civ::run_c08(&a),
+        "c10" => civ::run_c10(&a),
         "c04" => tzd::run_c04(&a),
         "c14" => tzd::run_c14(&a),
         _ => {
